@@ -208,8 +208,9 @@ def w2_index_mutators(ctx):
                 r.ok(f, "DashMap::%s(%s) read" % (m, recv), where(b, bi))
             elif m in DASHMAP_MUT:
                 good = in_allowed_family(prog, b, set(INDEX_MUTATOR_FAMILIES))
-                if good and f.startswith("storage::bitcask::Writer::"):
-                    # the method must take &mut self
+                if good and f.startswith("storage::bitcask::Writer::") and f in INDEX_MUTATOR_FAMILIES:
+                    # the method must take &mut self (a private helper admitted through its
+                    # callers is under the mutex because every caller is)
                     root = prog.bodies.get(b.root)
                     sig = prog.fnsigs.get(b.root)
                     good = bool(sig and sig["inputs"] and sig["inputs"][0].startswith("&mut "))
